@@ -840,6 +840,7 @@ def check_arrays_continuum(ctx: Ctx, rule: str):
     inner = [L for L in O.body if isinstance(L, ast.For)]
     ok_rows = False
     arr = None
+    rows_shape = False          # the per-unit row stores were found and resolved (whatever they say)
     if len(inner) == 1:
         # row r of the array is written from the r-th unit of the set: `for r, u in enumerate(units): arr[r][k] = f(u)` or
         # `for row, u in zip(arr, units): row[k] = f(u)` - in both the store's row index is the position of the unit it reads
@@ -852,6 +853,7 @@ def check_arrays_continuum(ctx: Ctx, rule: str):
             fu = flat_subscript(ast.Name(id=uvn, ctx=ast.Load()), venv)
             if fu is not None and fu[0] == units and len(fu[1]) == 1:
                 upos = fu[1][0]
+        rows_shape = bool(sts) and all(fl is not None and len(fl[1]) == 2 for fl in flats) and len({fl[0] for fl in flats}) == 1 and upos is not None
         if sts and all(fl is not None and len(fl[1]) == 2 for fl in flats) and len({fl[0] for fl in flats}) == 1 and upos is not None \
                 and {fl[1][0] for fl in flats} == {upos}:
             arr = flats[0][0]
@@ -862,6 +864,11 @@ def check_arrays_continuum(ctx: Ctx, rule: str):
             and s.value.func.attr == "append" and arr is not None and norm(s.value.args[0]) == arr]
     rets = [r for r in walk_no_nested(f.node) if isinstance(r, ast.Return)]
     ok_ret = bool(apps) and len(rets) == 1 and norm(rets[0].value) == norm(apps[0].value.func.value)
+    if not (ok_src and ok_rows and len(apps) == 1 and ok_ret) and not (rows_shape and norm(src).startswith(f"{cont}._annotations")):
+        # the builder is written another way (vectorised columns, a reused list, ...): nothing recognised, nothing judged
+        ctx.undecided(rule, f, O, f"the unit arrays are not built by one loop over the units of each annotator storing row by row (source ok={ok_src}, rows recognised="
+                      f"{rows_shape}, appended once per annotator={len(apps) == 1}, returned={ok_ret}): shape not recognised (not a verdict)", key="arrays-order")
+        return
     ctx.check(ok_src and ok_rows and len(apps) == 1 and ok_ret, rule, f, O,
               "unit arrays: one per annotator in the order of continuum._annotations, len(units) rows, row r = r-th unit in sort order "
               "(the same order sizes, build_A and the decoder's units[unit_id] use)",
